@@ -140,7 +140,7 @@ impl Oracle for C02 {
                             if rejoined_after {
                                 continue;
                             }
-                            let window = (w.nodes[node].cfg.max_past_epochs as usize).min(5);
+                            let window = w.nodes[node].cfg.max_past_epochs as usize;
                             let is_author = node == m.author;
                             let mut offered_in_window = false;
                             let mut echo_delivered = false;
@@ -253,6 +253,62 @@ fn mk(cfg: &RunCfg) -> Box<dyn Oracle> {
     Box::new(C02 { guarded: cfg.guards.contains("guarded"), ..Default::default() })
 }
 
+/// A message that reaches everybody many epochs late: the sender's relay is slow for this one
+/// event while an admin performs k further commits that everybody applies; k is chosen around the
+/// LARGEST configured past-epoch window among the members, so that windows above and below the
+/// library's built-in look-back are both met from inside and from outside.
+fn late_story(gn: &mut Gen, w: &mut World) -> Option<Step> {
+    if w.groups.is_empty() || gn.rng().chance(2, 3) {
+        return None;
+    }
+    let g = 0usize;
+    let n = w.nodes.len();
+    let members: Vec<usize> = (0..n).filter(|x| w.is_active_member(*x, g)).collect();
+    if members.len() < 2 {
+        return None;
+    }
+    // everybody stands in the same state (otherwise the scripted deliveries do not apply)
+    let states: BTreeSet<Option<(u64, String)>> = members.iter().map(|m| w.node_state(*m, g)).collect();
+    if states.len() != 1 || members.iter().any(|m| w.has_pending_commit(*m, g)) {
+        return None;
+    }
+    let admins: Vec<usize> = members.iter().copied().filter(|m| w.is_admin(*m, g)).collect();
+    let c = *gn.rng().pick(&admins)?;
+    let senders: Vec<usize> = members.iter().copied().filter(|m| *m != c).collect();
+    let s = *gn.rng().pick(&senders)?;
+    let widest = members.iter().map(|m| w.nodes[*m].cfg.max_past_epochs).max().unwrap_or(5);
+    let k = (widest as i64 + [-1i64, 0, 0, 1][gn.rng().below(4) as usize]).max(1) as usize;
+    let first = gn.mk(w, s, 0, Op::SendMsg { g, tag: 9000 + gn.emitted as u32, ts_back: 0, kind: 9, imeta: false });
+    let late = EvRef(first.id, 0);
+    let mut count = 0usize;
+    for i in 0..k {
+        let up = gn.mk(w, c, 1, Op::UpdateData { g, variant: (i % 2) as u8, arg: 700 + i as u32 });
+        let ci = EvRef(up.id, 0);
+        gn.queue.push_back(up);
+        let st = gn.mk(w, c, 0, Op::MergePending { g });
+        gn.queue.push_back(st);
+        count += 2;
+        for x in members.iter().filter(|m| **m != c) {
+            let st = gn.mk(w, *x, 0, Op::Deliver { ev: ci });
+            gn.queue.push_back(st);
+            count += 1;
+        }
+    }
+    for x in &members {
+        let st = gn.mk(w, *x, 0, Op::Deliver { ev: late });
+        gn.queue.push_back(st);
+        count += 1;
+    }
+    gn.hold_until.insert(late, gn.emitted + count + 2);
+    w.probe("very_late_message_story");
+    Some(first)
+}
+
+fn with_late_story(g: &mut Gen) {
+    g.hostile_hook = Some(late_story);
+    g.cfg.weights.hostile = g.cfg.weights.hostile.max(1);
+}
+
 pub fn spec() -> CheckSpec {
     let mut guards = BTreeSet::new();
     for g in ["guarded", "no_immediate_merge", "no_rotation", "no_leave", "no_remove", "no_publish_failure", "no_reinvite"] {
@@ -262,10 +318,10 @@ pub fn spec() -> CheckSpec {
     CheckSpec {
         id: "C02",
         level: "exploration",
-        rule: "message-heavy seeded swarm runs (C01 world) with non-default window configs; final ledger check after quiescence: every message sent on the winning chain and offered inside the windows is stored exactly once, intact and valid at every converged member of its epoch, losing-branch messages are not valid; a run is non-trivial when a message was processed after the recipient left the message's epoch and a rollback occurred; distinct = delivery signature",
+        rule: "message-heavy seeded swarm runs (C01 world) with non-default window configs (past-epoch windows 1, 2, 3, 5 and 8) and a scripted story in which one message reaches everybody k epochs late, k around the widest configured window; final ledger check after quiescence: every message sent on the winning chain and offered inside the windows is stored exactly once, intact and valid at every converged member of its epoch, losing-branch messages are not valid; a run is non-trivial when a message was processed after the recipient left the message's epoch and a rollback occurred; distinct = delivery signature",
         variants: vec![
-            Variant { name: "mem", profile: Profile { backend: BackendMix::Memory, ..base.clone() }, runs_quick: 300, runs_thorough: 15000, oracle: mk, guarded: false, configure_gen: None, post: None, custom: None },
-            Variant { name: "mixed", profile: Profile { backend: BackendMix::Mixed, ..base.clone() }, runs_quick: 100, runs_thorough: 5000, oracle: mk, guarded: false, configure_gen: None, post: None, custom: None },
+            Variant { name: "mem", profile: Profile { backend: BackendMix::Memory, ..base.clone() }, runs_quick: 300, runs_thorough: 15000, oracle: mk, guarded: false, configure_gen: Some(with_late_story), post: None, custom: None },
+            Variant { name: "mixed", profile: Profile { backend: BackendMix::Mixed, ..base.clone() }, runs_quick: 100, runs_thorough: 5000, oracle: mk, guarded: false, configure_gen: Some(with_late_story), post: None, custom: None },
             Variant { name: "mem-guarded", profile: Profile { backend: BackendMix::Memory, guards: guards.clone(), allow_immediate: false, ..base.clone() }, runs_quick: 300, runs_thorough: 15000, oracle: mk, guarded: true, configure_gen: None, post: None, custom: None },
             Variant { name: "mixed-guarded", profile: Profile { backend: BackendMix::Mixed, guards: guards.clone(), allow_immediate: false, ..base.clone() }, runs_quick: 100, runs_thorough: 5000, oracle: mk, guarded: true, configure_gen: None, post: None, custom: None },
         ],
